@@ -32,7 +32,7 @@ def Survives (f : Fsm) : Prop :=
   readImageFull (imageOf f) = (ReadResult.ok f, false) ∧
   ∀ rest : List Nat, ((readFsmProg.run (RState.init (imageOf f ++ rest))).2.inp = rest)
 
-/-- The property at full strength: every primitive value and every model the Rust types admit
+/-- The property at full strength: every primitive value and every model the Rust types allow
 survives the round trip. -/
 def C05_full : Prop :=
   (∀ v : Nat, v < 2 ^ 64 → ∀ rest, (pUInt.run (RState.init ((uintOp v).bytes ++ rest))).1 = v) ∧
@@ -64,7 +64,7 @@ theorem C05_i64_text (v : Int) (h1 : -(2 ^ 63) ≤ v) (h2 : v < 2 ^ 63) : parseI
   parseI64_showInt v h1 h2
 #assert_axioms C05_i64_text
 
-/-- every model the types admit — all states, transitions, the nine executable content kinds, invoke,
+/-- every model the types allow — all states, transitions, the nine executable content kinds, invoke,
 donedata, data, for every order in which the hash maps are iterated — is read back identical, with no
 error flagged and exactly the trailing bytes left over -/
 theorem C05_model (f : Fsm) (h : wfFsm typeLim f = true) : Survives f := by
